@@ -431,6 +431,9 @@ type pstate struct {
 	// cell therefore denotes
 	cells map[*ssa.Alloc]ssa.Value
 	alias map[ssa.Value]ssa.Value
+	// outcome of an inlined callee per result position, handed to the
+	// Extract instructions that follow the call
+	tup map[*ssa.Call][]tri
 }
 
 // deref maps a load of a tracked local cell to the value stored in it on
@@ -463,6 +466,12 @@ func (s *pstate) clone() *pstate {
 			n.alias[k] = v
 		}
 	}
+	if len(s.tup) > 0 {
+		n.tup = make(map[*ssa.Call][]tri, len(s.tup))
+		for k, v := range s.tup {
+			n.tup[k] = v
+		}
+	}
 	return n
 }
 
@@ -476,6 +485,9 @@ func (s *pstate) key(b *ssa.BasicBlock) string {
 	}
 	for l, v := range s.alias {
 		parts = append(parts, fmt.Sprintf("%s~%s", l.Name(), v.Name()))
+	}
+	for cl, ts := range s.tup {
+		parts = append(parts, fmt.Sprintf("%s!%v", cl.Name(), ts))
 	}
 	sort.Strings(parts)
 	return fmt.Sprintf("%d|%s|%s", b.Index, s.aux, strings.Join(parts, ","))
@@ -786,6 +798,11 @@ func (w *pwalker) exec(b *ssa.BasicBlock, from int, st *pstate) {
 			// an inlined callee's outcome is recorded on the tuple; hand it to the error component
 			if t, ok := st.facts[x.Tuple]; ok && ir.IsErrorType(x.Type()) {
 				st.facts[x] = t
+			}
+			if cl, ok := x.Tuple.(*ssa.Call); ok {
+				if ts, ok := st.tup[cl]; ok && x.Index < len(ts) && ts[x.Index] != triUnknown {
+					st.facts[x] = ts[x.Index]
+				}
 			}
 		case *ssa.Store:
 			if a := w.simpleCell(x.Addr); a != nil {
